@@ -608,4 +608,3 @@ func c07(c *ctx) {
 	o.sample("clock edge: ts = T, server clock T+180 s exactly → web; T+180 s−1 ns → accepted")
 	o.sample("credentials: zero/negative credit, expired, unknown uid, unknown method, enc ≥ 4 → web; admin uid with sid 7 → ordinary proxy session")
 }
-
